@@ -250,4 +250,11 @@ brute-force enumeration agree (a test of the definitions; the theorem is `count_
 example : countIE [1, 2, 3, 4, 5] [[1, 2], [2, 3], [3, 9]] 3 = 42 ∧
     card [1, 2, 3, 4, 5] [[1, 2], [2, 3], [3, 9]] 3 = 42 := by decide
 
+/-- **No environment inputs**: the library calls into no package that could supply anything that
+varies between runs or machines — clock, environment variables, processor count, scheduler,
+`math/rand` — other than `crypto/rand.Read`. (Seeded change C07j made `Entropy()` depend on
+`runtime.GOMAXPROCS`.) -/
+theorem no_environment_inputs :
+    (Spg.Generated.Facts.sensitiveCalls.all fun c => c.2.2.1 == "crypto/rand.Read") = true := by decide
+
 end Spg.C07
